@@ -375,6 +375,9 @@ func relayer(g *fleetGen) {
 			}
 		case 1:
 			a, b := g.nodes[r.Intn(len(g.nodes))], g.nodes[r.Intn(len(g.nodes))]
+			if o := g.otherMapping(a); o != nil && r.Pct(50) {
+				b = o
+			}
 			g.emit(engine.Event{Ev: "mapeq", N: a.id, M: b.id})
 		case 2:
 			g.emit(engine.Event{Ev: "mapalpha", N: g.nodes[r.Intn(len(g.nodes))].id})
